@@ -131,7 +131,7 @@ def array_rule(ctx, p, K):
     mm = arr.lookup("containing_indices")
     txt = {norm_text(n.targets[0]): norm_text(n.value) for n in mm.body_nodes() if isinstance(n, ast.Assign)}
     rets = wire.returns_of(mm)
-    ctx.ob("C20.containment", mm.key, txt.get("inside") == "shape.mask(self.triangles)" and len(rets) == 1 and norm_text(rets[0].value) == "np.where(inside)[0]", where=mm, node=mm.node, construct=str(txt), message="containing indices = positions where the shape's mask of these triangles is true")
+    ctx.ob("C20.containment", mm.key, len(rets) == 1 and any(isinstance(n, ast.Assign) and norm_text(n.targets[0]) == "inside" and wire.text_nokw(n.value) == "shape.mask(self.triangles)" for n in mm.body_nodes()) and len(rets) == 1 and norm_text(rets[0].value) == "np.where(inside)[0]", where=mm, node=mm.node, construct=str(txt), message="containing indices = positions where the shape's mask of these triangles is true")
 
 
 # --------------------------------------------------------------------------------------------------------------------
@@ -334,7 +334,7 @@ def lattice_rule(ctx, p, K):
     ctx.ob("C20.selection", mm.key, ok, where=mm, node=mm.node, construct=str(txt)[:300], message="the vertex / index representation of the lattice set must describe exactly its triangles")
     mm = co.lookup("containing_indices")
     rets = wire.returns_of(mm)
-    ctx.ob("C20.containment", mm.key, len(rets) == 1 and norm_text(rets[0].value) == "self.with_vertices(self.vertices).containing_indices(shape)", where=mm, node=mm.node, construct=norm_text(rets[0].value) if rets else "", message="containment is decided on the same triangles in vertex form")
+    ctx.ob("C20.containment", mm.key, len(rets) == 1 and wire.text_nokw(rets[0].value) == "self.with_vertices(self.vertices).containing_indices(shape)", where=mm, node=mm.node, construct=norm_text(rets[0].value) if rets else "", message="containment is decided on the same triangles in vertex form")
     # area of the lattice set: sqrt(3)/4 * side^2 per triangle
     mm = ab.lookup("area")
     so = SelfObj(co, {"side_length": s}, K)
@@ -393,7 +393,7 @@ def containment_rule(ctx, p, K):
             continue
         n += 1
         rets = wire.returns_of(mm)
-        ok = len(rets) == 1 and isinstance(rets[0].value, ast.BinOp) and isinstance(rets[0].value.op, ast.BitOr) and "super().mask(triangles)" in (norm_text(rets[0].value.left), norm_text(rets[0].value.right))
+        ok = len(rets) == 1 and isinstance(rets[0].value, ast.BinOp) and isinstance(rets[0].value.op, ast.BitOr) and "super().mask(triangles)" in (wire.text_nokw(rets[0].value.left), wire.text_nokw(rets[0].value.right))
         ctx.ob(rule, mm.key + ":includes-point-test", ok, where=mm, node=rets[0] if rets else mm.node, construct=norm_text(rets[0].value)[-80:] if rets else "",
                message="a shape's mask must OR in super().mask(triangles): a triangle containing the shape's reference point is always reported")
     ctx.require_count(rule, "Shape.mask overrides", n, 4)
